@@ -41,7 +41,9 @@ StructCases ==
   \cup {Desc(k, l, ln, "-", s) : k \in {"added_required", "added_optional"},
                                  l \in {"query", "header", "formData", "body_prop"}, ln \in StructLeaves, s \in BOOLEAN}
   \cup {Desc(k, "-", "-", "-", s) : k \in {"endpoint", "consumes", "resp_code", "resp_prop", "resp_header",
-                                          "resp_enum", "resp_prop_added", "identity"}, s \in BOOLEAN}
+                                          "resp_enum", "resp_prop_added", "identity",
+                                          \* definitions no endpoint uses: the target of an allOf is renamed / dropped
+                                          "unref_allof_renamed", "unref_allof_dropped", "unref_ref_renamed"}, s \in BOOLEAN}
   \cup {Desc("location", "query", ln, t, s) : ln \in {"INT", "STRPLAIN"}, t \in {"header", "formData"}, s \in BOOLEAN}
   \cup {Desc("cf", l, "ARR", cf, s) : l \in {"query", "header", "formData"}, cf \in {"pipes", "ssv"}, s \in BOOLEAN}
 
@@ -73,6 +75,7 @@ HdrsXY  == [X |-> [type |-> "string"], Y |-> [type |-> "integer"]]
 HdrsX   == [X |-> [type |-> "string"]]
 
 ObjQ == [type |-> "object", properties |-> [q |-> [type |-> "string"]]]
+UnrefObj == [type |-> "object", properties |-> [id |-> [type |-> "integer"], name |-> [type |-> "string"]]]
 ObjQP(leaf, req) ==
   IF req THEN [type |-> "object", properties |-> [q |-> [type |-> "string"], p |-> leaf], required |-> <<"p">>]
          ELSE [type |-> "object", properties |-> [q |-> [type |-> "string"], p |-> leaf]]
@@ -157,6 +160,18 @@ Pair(c) ==
          [A |-> RespAOS(PropsAB, HdrsXY, {"r200"}), B |-> RespAOS(PropsE, HdrsXY, {"r200"}), reqs |-> {}]
     [] c.kind = "meta" ->
          [A |-> MetaPair(c.edit)[1], B |-> MetaPair(c.edit)[2], reqs |-> {}]
+    [] c.kind = "unref_allof_renamed" ->
+         [A |-> [BaseAOS EXCEPT !.defs = [Account |-> [type |-> "object", properties |-> [q |-> [type |-> "string"]], allOf |-> <<[ref |-> "Base"]>>], Base |-> UnrefObj]],
+          B |-> [BaseAOS EXCEPT !.defs = [Account |-> [type |-> "object", properties |-> [q |-> [type |-> "string"]], allOf |-> <<[ref |-> "Core"]>>], Core |-> UnrefObj]],
+          reqs |-> {}]
+    [] c.kind = "unref_allof_dropped" ->
+         [A |-> [BaseAOS EXCEPT !.defs = [Account |-> [type |-> "object", properties |-> [q |-> [type |-> "string"]], allOf |-> <<[ref |-> "Base"]>>], Base |-> UnrefObj, Core |-> UnrefObj]],
+          B |-> [BaseAOS EXCEPT !.defs = [Account |-> [type |-> "object", properties |-> [q |-> [type |-> "string"]], allOf |-> <<[ref |-> "Core"]>>], Core |-> UnrefObj]],
+          reqs |-> {}]
+    [] c.kind = "unref_ref_renamed" ->
+         [A |-> [BaseAOS EXCEPT !.defs = [Account |-> [type |-> "object", properties |-> [owner |-> [ref |-> "Person"]]], Person |-> UnrefObj]],
+          B |-> [BaseAOS EXCEPT !.defs = [Account |-> [type |-> "object", properties |-> [owner |-> [ref |-> "Zebra"]]], Zebra |-> UnrefObj]],
+          reqs |-> {}]
     [] c.kind = "identity" ->
          [A |-> RespAOS(PropsAB, HdrsXY, {"r200"}), B |-> RespAOS(PropsAB, HdrsXY, {"r200"}), reqs |-> {}]
 
